@@ -185,6 +185,29 @@ pub fn t234(ctx: &mut Ctx, ps: &mut Parsers, input: &str, ext: u32, conv: &str, 
             judge(ctx, ps, &base, input, t, ext, conv, "T2_trailing", detail);
         }
     }
+    // T2 inside the front matter: trailing spaces (not comments — `--` is not a comment in YAML) on the fence lines and
+    // on the YAML lines (plain / quoted scalars, flow and block collections: trailing blanks are not content there)
+    if body > 0 {
+        for s in line_starts(input).into_iter().filter(|s| *s < body) {
+            let e = line_end(s);
+            let mut end = e;
+            if end > s && input.as_bytes()[end - 1] == b'\r' {
+                end -= 1;
+            }
+            if input[s..end].trim().is_empty() {
+                continue;
+            }
+            let fence = input[s..end].trim_end() == "---";
+            for (add, detail) in [("  ", "spaces_in_front_matter"), ("\t", "tab_after_fence")] {
+                if detail == "tab_after_fence" && !fence {
+                    continue;
+                }
+                let t = format!("{}{}{}", &input[..end], add, &input[end..]);
+                judge(ctx, ps, &base, input, t, ext, conv, "T2_trailing", if fence { "spaces_after_fence" } else { detail });
+                ctx.count("T2_front_matter_lines");
+            }
+        }
+    }
     // T3: block comment at an existing gap between two words (not on `>>` lines)
     let (_, toks) = verif_tokens(input);
     for w in toks.windows(3) {
